@@ -8,6 +8,7 @@ require (
 	github.com/furiko-io/cronexpr v0.1.3
 	github.com/furiko-io/furiko v0.0.0
 	github.com/mitchellh/hashstructure/v2 v2.0.2
+	github.com/nleeper/goment v1.4.1
 	k8s.io/api v0.23.0
 	k8s.io/apimachinery v0.23.0
 	k8s.io/client-go v0.23.0
@@ -35,7 +36,6 @@ require (
 	github.com/mitchellh/mapstructure v1.4.3 // indirect
 	github.com/modern-go/concurrent v0.0.0-20180306012644-bacd9c7ef1dd // indirect
 	github.com/modern-go/reflect2 v1.0.2 // indirect
-	github.com/nleeper/goment v1.4.1 // indirect
 	github.com/opencontainers/go-digest v1.0.0 // indirect
 	github.com/opencontainers/runc v1.0.2 // indirect
 	github.com/pkg/errors v0.9.1 // indirect
